@@ -1447,8 +1447,139 @@ func (n *c01Nodes) generate(o *c01Out, rnd *rand.Rand, thorough bool) {
 		}
 		n.run(o, c01Call{kind: b.kind, text: b.text, at: &t, allowUntrusted: rnd.Intn(2) == 0, checkSig: rnd.Intn(6) != 0, label: b.label + "@rt", base: b.label, mut: "time", path: strconv.FormatInt(t-c01T0, 10)})
 	}
+	// 2d. Issue on accepted and refused templates
+	n.issueScenario(o, rnd)
 	// 3. time / key-history / trust / revocation scan on the unmodified documents
 	n.scan(o, rnd, bases, thorough)
+}
+
+// issueScenario: the real issuer.Issue on accepted and refused templates (both formats); the model's `issue` must agree on
+// the outcome class, and everything that is issued must verify on the verifier node (own_output_verifies, sampled).
+func (n *c01Nodes) issueScenario(o *c01Out, rnd *rand.Rand) {
+	u := ssi.MustParseURI
+	base := n.templates()
+	type tc struct {
+		name string
+		t    vc.VerifiableCredential
+		at   int64
+	}
+	with := func(t vc.VerifiableCredential, f func(*vc.VerifiableCredential)) vc.VerifiableCredential {
+		bs, _ := json.Marshal(t.CredentialSubject)
+		var cs []any
+		_ = json.Unmarshal(bs, &cs)
+		t.CredentialSubject = cs
+		t.Context = append([]ssi.URI{}, t.Context...)
+		t.Type = append([]ssi.URI{}, t.Type...)
+		f(&t)
+		return t
+	}
+	subj := func(t *vc.VerifiableCredential) map[string]any { return t.CredentialSubject[0].(map[string]any) }
+	at := c01T0 + 100
+	cases := []tc{
+		{"org", base["org"], at}, {"human", base["human"], at}, {"plain", base["plain"], at}, {"auth", base["auth"], at},
+		{"undefined-claim", with(base["org"], func(t *vc.VerifiableCredential) { subj(t)["zzUndefined"] = "u" }), at},
+		{"undefined-nested", with(base["human"], func(t *vc.VerifiableCredential) { subj(t)["human"].(map[string]any)["zz"] = 1.0 }), at},
+		{"case-variant-claim", with(base["org"], func(t *vc.VerifiableCredential) { subj(t)["ID"] = didO }), at},
+		{"three-types", with(base["human"], func(t *vc.VerifiableCredential) { t.Type = append(t.Type, u("NutsOrganizationCredential")) }), at},
+		{"two-types-no-vc", with(base["org"], func(t *vc.VerifiableCredential) { t.Type = []ssi.URI{u("NutsOrganizationCredential"), u("HumanCredential")} }), at},
+		{"no-types", with(base["plain"], func(t *vc.VerifiableCredential) { t.Type = nil }), at},
+		{"issuer-unknown", with(base["plain"], func(t *vc.VerifiableCredential) { t.Issuer = u(didU) }), at},
+		{"issuer-not-a-did", with(base["plain"], func(t *vc.VerifiableCredential) { t.Issuer = u("https://example.com/issuer") }), at},
+		{"issuer-deactivated", with(base["plain"], func(t *vc.VerifiableCredential) { t.Issuer = u(didD) }), c01T0 + 600},
+		{"issuer-before-deactivation", with(base["plain"], func(t *vc.VerifiableCredential) { t.Issuer = u(didD) }), c01T0 + 100},
+		{"no-subject-id", with(base["plain"], func(t *vc.VerifiableCredential) { delete(subj(t), "id") }), at},
+		{"org-bad-shape", with(base["org"], func(t *vc.VerifiableCredential) { delete(subj(t)["organization"].(map[string]any), "city") }), at},
+		{"org-issued-by-other", with(base["org"], func(t *vc.VerifiableCredential) { t.Issuer = u(didJ) }), at},
+		{"no-vc-context", with(base["human"], func(t *vc.VerifiableCredential) { t.Context = []ssi.URI{u(ctxEx)} }), at},
+		{"key-rotated", base["org"], c01T0 + 2500},
+	}
+	for _, c := range cases {
+		for _, f := range []string{vc.JSONLDCredentialProofFormat, vc.JWTCredentialProofFormat} {
+			n.w.asOf = c.at * 1000
+			tb := &c01Tables{urls: map[string]any{}, dids: map[string]any{}}
+			// the unsigned credential as buildAndSignVC assembles it (id with a placeholder uuid), for the model and for AllFieldsDefined
+			un := c.t
+			un.Context = append([]ssi.URI{}, c.t.Context...)
+			un.Type = append([]ssi.URI{}, c.t.Type...)
+			if !un.ContainsContext(u(ctxVC)) {
+				un.Context = append([]ssi.URI{u(ctxVC)}, un.Context...)
+			}
+			if !un.IsType(u("VerifiableCredential")) {
+				un.Type = append(un.Type, u("VerifiableCredential"))
+			}
+			issuerDID := c.t.Issuer.String()
+			if d, err := did.ParseDID(issuerDID); err == nil {
+				issuerDID = d.String()
+			}
+			id := u(issuerDID + "#u")
+			un.ID = &id
+			un.IssuanceDate = time.Unix(c.at, 0).UTC()
+			js, _ := json.Marshal(un)
+			allDef := jsonld.AllFieldsDefined(n.w.loader, js) == nil
+			parsed, perr := vc.ParseVerifiableCredential(string(js))
+			var view map[string]any
+			if perr == nil {
+				view = n.w.viewVC(*parsed, tb)
+				view["fmt"] = f
+			}
+			tb.did(c.t.Issuer.String())
+			tb.url(id.String())
+			op := map[string]any{"op": "issue", "label": "issue:" + c.name + ":" + f, "fmt": f, "asOf": c.at * 1000, "now": c.at * 1000,
+				"template": view, "templateTypes": func() []string {
+					r := []string{}
+					for _, t := range c.t.Type {
+						r = append(r, t.String())
+					}
+					return r
+				}(), "templateCtx": func() []string {
+					r := []string{}
+					for _, t := range c.t.Context {
+						r = append(r, t.String())
+					}
+					return r
+				}(), "allDefined": allDef, "urls": tb.urls, "dids": tb.dids}
+			issuer.TimeFunc = func() time.Time { return time.Unix(c.at, 0).UTC() }
+			cred, err := n.iss.Issue(n.w.ctx, c.t, issuer.CredentialOptions{Format: f})
+			issuer.TimeFunc = time.Now
+			line := "ok"
+			if err != nil {
+				e := err.Error()
+				has := func(x string) bool { return strings.Contains(e, x) }
+				switch {
+				case has("failed to parse issuer"):
+					line = "err:issuer-not-a-did"
+				case has("could not resolve an assertionKey"):
+					line = "err:no-assertion-key"
+				case has("at most 1 extra type"):
+					line = "err:types"
+				case has("unable to get subject DID"), has("unable to sign JWT credential"):
+					line = "err:no-subject"
+				case has("jsonld:"):
+					line = "err:undefined-fields"
+				case has("validation failed"), has("invalid DID"):
+					line = "err:invalid"
+				default:
+					line = "err:other:" + e[:min(len(e), 50)]
+				}
+				if os.Getenv("VERIF_DEBUG") != "" {
+					op["err"] = e
+				}
+			}
+			o.emit(op, line)
+			o.stats["issue:"+strings.SplitN(line, ":", 3)[0]]++
+			if err == nil {
+				// own output verifies on the other node (trust not required here: the verifier node has its own trust file)
+				text := cred.Raw()
+				if f != vc.JWTCredentialProofFormat {
+					b, _ := json.Marshal(cred)
+					text = string(b)
+				}
+				t := c.at + 30
+				lbl := "issued:" + c.name + ":" + f
+				n.run(o, c01Call{kind: "vc", text: text, at: &t, allowUntrusted: true, checkSig: true, label: lbl, base: lbl})
+			}
+		}
+	}
 }
 
 // statusScenario: credentials with a StatusList2021 entry issued by the did:web issuer; the verifier node downloads the
